@@ -47,7 +47,20 @@ def extract_params():
     return c, stale, sig
 
 
-INV = ["NoUseAfterFree", "FreeOnce", "NoRace", "CurrentLive", "ReaderNeverBlocked"]
+INV_OF = {
+    "C01": ["NoUseAfterFree", "FreeOnce", "NoRace", "CurrentLive"],
+    "C03": ["ReaderNeverBlocked"],
+    "C18": [],
+}
+
+
+def classify_abs(tv):
+    r = tv.rejected
+    if isinstance(r, dict) and r.get("e") in ("deadlock", "livelock"):
+        return "C18"
+    if isinstance(r, dict) and r.get("e") == "panic":
+        return "C18"
+    return "C01"
 
 
 def mc_configs(tier):
@@ -100,6 +113,7 @@ def scenarios(tier):
 
 def run_halflock(chk, tier, want_liveness=False):
     """Adds half-lock coverage/violations to chk (a Check). Returns the extracted constants."""
+    pid = chk.pid
     consts, stale, sig = extract_params()
     chk.params["half_lock"] = {"constants": {k: str(v) for k, v in consts.items()},
                                "signature": sig, "stale": stale}
@@ -111,8 +125,8 @@ def run_halflock(chk, tier, want_liveness=False):
         for what, cfg, tmo in mc_configs(tier):
             c = dict(cfg)
             c.update(consts)
-            r = chk.model_check("HalfLock.tla", c, invariants=INV, what=what, timeout=tmo,
-                                workers=8 if tier == "quick" else 12)
+            r = chk.model_check("HalfLock.tla", c, invariants=INV_OF[pid], what=what, timeout=tmo,
+                                workers=8 if tier == "quick" else 12, deadlock=(pid == "C18"))
             if r.violation:
                 chk.model_violation(r, "half_lock.rs as extracted (%s)" % what, c,
                                     extra={"signature": sig})
@@ -129,7 +143,9 @@ def run_halflock(chk, tier, want_liveness=False):
     # 2. the real code, all schedules of small scenarios
     for name, args, tconsts in scenarios(tier):
         out = os.path.join(WORK, "hl_%s_%s" % (chk.pid, name))
-        stats, _, _ = harness("halflock", *args, "--out", out, "--max", 400000, timeout=3000)
+        fine_max = 600 if tier == "quick" else 5000
+        stats, _, _ = harness("halflock", *args, "--out", out, "--max", 400000,
+                              "--fine-max", fine_max, timeout=3000)
         chk.evaluations += stats["schedules"]
         chk.distinct += stats["distinct_abs_traces"]
         if not stats["exhausted"]:
@@ -137,30 +153,43 @@ def run_halflock(chk, tier, want_liveness=False):
         if stats["nondeterminism"]:
             chk.note("scenario %s: schedule enumeration saw nondeterminism" % name)
         abs_path, fine_path = out + ".abs.ndjson", out + ".fine.ndjson"
-        tv = chk.trace_validate("TraceHalfLockAbs.tla", abs_path, "abs_" + name,
-                                invariants=["NoHeldFreed", "EndQuiescent"])
-        if tv.accepted:
-            chk.traces += stats["distinct_abs_traces"]
-            chk.trace_events += tv.lines
-        else:
-            n = scenario_of_line(abs_path, tv.rejected_at or 1)
-            sched = open(out + ".schedules.txt").read().splitlines()[n] if n is not None else ""
-            path = write_replay(chk.pid, "halflock_%s" % name, {
-                "property": chk.pid, "kind": "real_execution_rejected_by_abstract_spec",
+        rej, ok_lines = chk.validate_runs("TraceHalfLockAbs.tla", abs_path, "abs_" + name,
+                                          classify=classify_abs,
+                                          invariants=["NoHeldFreed", "EndQuiescent"])
+        chk.trace_events += ok_lines
+        chk.traces += max(stats["distinct_abs_traces"] - len(rej), 0)
+        scheds = open(out + ".schedules.txt").read().splitlines()
+        for n, what, cls in rej:
+            sched = scheds[n] if n is not None and 0 <= n < len(scheds) else ""
+            if cls != pid:
+                chk.note("scenario %s run %s: rejected by HalfLockAbs at %s - that is %s's "
+                         "concern, not reported here" % (name, n, json.dumps(what), cls))
+                continue
+            path = write_replay(pid, "halflock_%s_%s" % (name, n), {
+                "property": pid, "kind": "real_execution_rejected_by_abstract_spec",
                 "component": "halflock", "harness_args": [str(a) for a in args],
-                "schedule": sched, "rejected_event": tv.rejected, "violated": tv.violation,
+                "schedule": sched, "rejected_event": what,
                 "replay": "harness halflock %s --replay '%s'" % (" ".join(map(str, args)), sched)})
             chk.violation("half-lock scenario %s: real execution rejected by HalfLockAbs at %s"
-                          % (name, json.dumps(tv.rejected)), path)
-            continue
-        if not stale:
+                          % (name, json.dumps(what)), path)
+        if not stale and not rej:
             c = dict(tconsts)
             c.update(consts)
             ftv = chk.trace_validate("TraceHalfLock.tla", fine_path, "fine_" + name, constants=c,
-                                     invariants=["NoUseAfterFree", "FreeOnce", "CurrentLive",
-                                                 "CountersExact"])
+                                     invariants=["CountersExact"] + INV_OF[pid][:4]
+                                     if pid != "C03" else ["CountersExact"])
             if ftv.accepted:
                 chk.trace_events += ftv.lines
+            elif ftv.violation:
+                path = write_replay(pid, "halflock_fine_%s" % name, {
+                    "property": pid, "kind": "real_execution_violates_invariant_of_fine_spec",
+                    "harness_args": [str(a) for a in args], "violated": ftv.violation})
+                if ftv.violation in INV_OF[pid]:
+                    chk.violation("half-lock scenario %s: real steps drive HalfLock.tla into a "
+                                  "state violating %s" % (name, ftv.violation), path)
+                else:
+                    chk.note("fine model stale for half_lock (scenario %s): internal invariant "
+                             "%s fails on the real steps" % (name, ftv.violation))
             else:
                 chk.note("fine model stale for half_lock (scenario %s): real step %s is not the "
                          "next fine action" % (name, json.dumps(ftv.rejected)))
